@@ -543,9 +543,62 @@ struct Shared {
     /// deadlines the tasks are currently waiting for (task id -> instant)
     waiting: RefCell<HashMap<usize, Instant>>,
     max_late: Cell<Duration>,
+    /// iterations made by the busy loops (main future yielding, `z` tasks, pre-notified polls)
+    iters: Cell<u64>,
+    /// task id -> (deadline seen overdue, iteration count at that moment)
+    overdue: RefCell<HashMap<usize, (Instant, u64)>>,
+    /// set once starvation was reported (or the watchdog ran out): the busy loops stop keeping the runtime busy
+    stop_busy: Cell<bool>,
+    give_up: Cell<Option<Instant>>,
+    /// ids of the `z` tasks (they wait for all the others)
+    busy_ids: RefCell<Vec<usize>>,
 }
 
+/// a timer is reported as starved when its deadline passed more than this ago …
+const STARVED_AFTER: Duration = Duration::from_millis(500);
+/// … AND the runtime loop went round at least this often since the deadline was seen overdue
+/// (every round contains a `poll_with`, which has to sweep the wheel): independent of machine load
+const STARVED_ITERS: u64 = 2000;
+
 impl Shared {
+    /// One round of a loop that keeps the runtime from idling in the driver. Returns `false` when
+    /// the loop should stop doing so. Monitor `C09:timer-starved`.
+    fn busy_iteration(&self) -> bool {
+        if self.stop_busy.get() {
+            return false;
+        }
+        let it = self.iters.get() + 1;
+        self.iters.set(it);
+        let now = Instant::now();
+        let mut starved = None;
+        {
+            let waiting = self.waiting.borrow();
+            let mut overdue = self.overdue.borrow_mut();
+            overdue.retain(|id, (dl, _)| waiting.get(id) == Some(dl));
+            for (id, dl) in waiting.iter() {
+                if now > *dl {
+                    let (_, since) = *overdue.entry(*id).or_insert((*dl, it));
+                    if now - *dl > STARVED_AFTER && it - since >= STARVED_ITERS {
+                        starved = Some((*id, now - *dl, it - since));
+                    }
+                }
+            }
+        }
+        if let Some((id, late, rounds)) = starved {
+            self.fail(
+                "C09:timer-starved",
+                format!("task {id}: deadline passed {late:?} ago, the runtime loop went round {rounds} times since, the timer has not fired"),
+            );
+            self.stop_busy.set(true);
+            return false;
+        }
+        if self.give_up.get().is_some_and(|g| now > g) {
+            self.stop_busy.set(true);
+            return false;
+        }
+        true
+    }
+
     fn fail(&self, sig: &str, detail: String) {
         self.failures.borrow_mut().push((sig.into(), detail));
     }
@@ -606,7 +659,12 @@ async fn run_task(sh: Rc<Shared>, id: usize, spec: String) {
             let limit = sh.off(parse_off(limit));
             let inner_done = Rc::new(Cell::new(false));
             let res = match *inner {
-                "n" => timeout_at(limit, std::future::pending::<()>()).await,
+                "n" => {
+                    sh.waiting.borrow_mut().insert(id, limit);
+                    let r = timeout_at(limit, std::future::pending::<()>()).await;
+                    sh.waiting.borrow_mut().remove(&id);
+                    r
+                }
                 "r" => {
                     inner_done.set(true);
                     timeout_at(limit, std::future::ready(())).await
@@ -690,6 +748,34 @@ async fn run_task(sh: Rc<Shared>, id: usize, spec: String) {
                 delivered.push(v);
             }
             format!("ticks#{n_d}")
+        }
+        ["z"] => {
+            // a task that keeps completing cheap I/O (1-byte reads of /dev/zero) until every other
+            // task is done: each driver poll has a completion to reap and returns Ok(())
+            use compio_io::AsyncReadAt;
+            match compio_fs::File::open("/dev/zero").await {
+                Err(e) => format!("busy-open-failed:{:?}", e.kind()),
+                Ok(file) => {
+                    let mut buf = Vec::with_capacity(1);
+                    loop {
+                        let others_done = {
+                            let toks = sh.tokens.borrow();
+                            toks.iter().enumerate().all(|(i, t)| i == id || t.is_some() || sh.busy_ids.borrow().contains(&i))
+                        };
+                        if others_done || !sh.busy_iteration() {
+                            break;
+                        }
+                        let compio_buf::BufResult(r, b) = file.read_at(buf, 0).await;
+                        buf = b;
+                        buf.clear();
+                        if r.is_err() {
+                            break;
+                        }
+                    }
+                    let _ = file.close().await;
+                    "busy".to_string()
+                }
+            }
         }
         ["n", count, every] => {
             // wake-ups from another thread: the driver returns from `poll` before the timeout, the
@@ -829,10 +915,16 @@ fn run_rt_once(drv: &str, lp: &str, tasks_s: &str) -> RtOut {
         failures: RefCell::new(vec![]),
         waiting: RefCell::new(HashMap::new()),
         max_late: Cell::new(Duration::ZERO),
+        iters: Cell::new(0),
+        overdue: RefCell::new(HashMap::new()),
+        stop_busy: Cell::new(false),
+        give_up: Cell::new(None),
+        busy_ids: RefCell::new(tasks.iter().enumerate().filter(|(_, t)| **t == "z").map(|(i, _)| i).collect()),
     });
     let give_up = sh.t0 + Duration::from_millis(horizon_ms(&tasks)) + TOL + Duration::from_millis(1500);
+    sh.give_up.set(Some(give_up));
     let all_done = |sh: &Shared| sh.tokens.borrow().iter().all(|t| t.is_some());
-    if lp == "manual" {
+    if lp == "manual" || lp == "spin" {
         // the loop of `block_on`, spelled out with the low-level API, with monitors between the steps
         rt.enter(|| {
             for (id, t) in tasks.iter().enumerate() {
@@ -868,6 +960,11 @@ fn run_rt_once(drv: &str, lp: &str, tasks_s: &str) -> RtOut {
                     sh.fail("C09:never-fires", "watchdog".into());
                     break;
                 }
+                // `spin`: the driver's notifier is already woken before every poll, so the driver poll
+                // returns at once with Ok(()) instead of timing out; the timers must be swept all the same
+                if lp == "spin" && sh.busy_iteration() {
+                    rt.waker().wake_by_ref();
+                }
                 if remaining {
                     rt.poll_with(Some(Duration::ZERO))
                 } else if ct.is_none() {
@@ -896,6 +993,7 @@ fn run_rt_once(drv: &str, lp: &str, tasks_s: &str) -> RtOut {
             })
         };
         let sh2 = sh.clone();
+        let busy_main = lp == "busy";
         let tasks2: Vec<String> = tasks.iter().map(|s| s.to_string()).collect();
         rt.block_on(async move {
             let mut hs = vec![];
@@ -910,6 +1008,10 @@ fn run_rt_once(drv: &str, lp: &str, tasks_s: &str) -> RtOut {
                 if Instant::now() > give_up {
                     sh2.fail("C09:never-fires", "watchdog".into());
                     return Poll::Ready(());
+                }
+                // `busy`: the main future yields by waking itself, the runtime never idles in the driver
+                if busy_main && sh2.busy_iteration() {
+                    cx.waker().wake_by_ref();
                 }
                 Poll::Pending
             })
@@ -1243,7 +1345,8 @@ fn gen_wheel_case(rng: &mut Rng) -> Vec<String> {
 
 fn gen_rt_line(rng: &mut Rng) -> String {
     let drv = *rng.pick(&["uring", "poll"]);
-    let lp = *rng.pick(&["manual", "block"]);
+    // `busy` / `spin`: the runtime never idles in the driver while the timers become due
+    let lp = *rng.pick(&["manual", "block", "manual", "block", "busy", "spin"]);
     let n = rng.range(1, 8);
     let mut tasks = vec![];
     // deadlines on a 1..20 ms scale; `elapsed` verdicts, which depend on real time, keep a 150 ms margin
@@ -1311,6 +1414,11 @@ fn gen_rt_line(rng: &mut Rng) -> String {
             }
         };
         tasks.push(t);
+    }
+    // every sixth scenario: a task saturating the driver with cheap completions
+    if rng.chance(1, 6) {
+        let at = rng.below(tasks.len() as u64 + 1) as usize;
+        tasks.insert(at, "z".to_string());
     }
     // every third scenario: cross-thread wake-ups at 0.3..2.5 ms intervals while the timers run
     if rng.chance(1, 3) {
